@@ -12,6 +12,8 @@ trap cleanup EXIT
 ( cd $sb/repo && git apply "$patch" ) || { echo "patch does not apply" > "$result"; exit 2; }
 rsync -a --exclude target --exclude .work --exclude .git --exclude 'replays/found' --exclude evidence /verif/ $sb/verif/
 sed -i "s|path = \"/repo\"|path = \"$sb/repo\"|" $sb/verif/harness/Cargo.toml
+# start from /verif's build output so that only priority-queue and the harness itself are rebuilt
+[ -d /verif/target ] && [ -z "$COLD" ] && cp -a --reflink=auto /verif/target $sb/verif/target 2>/dev/null
 : > "$result"
 for p in "$@"; do
   out=$(cd $sb/verif && VERIF_WORKERS=${VERIF_WORKERS:-16} VERIF_SEED=${VERIF_SEED:-1} ./check "$p" --tier ${TIER:-quick} 2>$sb/err.txt); rc=$?
